@@ -40,7 +40,8 @@ def avOf : Sexp → Option Allowed
   | .list (.atom "lits" :: vs) => (vs.mapM valueOf).map (fun ls => some (fun v => ls.any (· = v)))
   | .list [.atom "cmp", .atom op, n] => do
     let n ← Sexp.int? n
-    let f : Int → Bool ← match op with
+    let n : DNum := DNum.ofInt n
+    let f : DNum → Bool ← match op with
       | "lt" => some (fun x => decide (x < n))
       | "le" => some (fun x => decide (x ≤ n))
       | "gt" => some (fun x => decide (x > n))
